@@ -31,6 +31,9 @@ type g2lFn struct {
 	inSw    int
 	fuelChk bool // emitting the _fuelOK twin
 	hasLoop bool
+	valPtr  map[types.Object]bool // pointer variables held as their pointee (go2lean_ptr.go)
+	fnObj   *types.Func           // the function being translated (go2lean_ptr.go)
+	inOut   []*types.Var          // pointer parameters returned as extra results (go2lean_inout.go)
 }
 
 func (f *g2lFn) fail(format string, a ...any) {
@@ -166,7 +169,7 @@ func (f *g2lFn) exprNB(e ast.Expr) string {
 		if g2lKindOf(f.typeOf(x.X)) != kPtr {
 			f.fail("`%s`", f.src(e))
 		}
-		return g2lPar(f.expr(x.X)) + ".get!"
+		return f.asVal(x.X)
 	case *ast.IndexExpr:
 		return f.index(x)
 	}
@@ -197,6 +200,9 @@ func (f *g2lFn) ident(id *ast.Ident) string {
 			return "(none : " + f.lean(t) + ")"
 		case kList:
 			return "([] : " + f.lean(t) + ")"
+		}
+		if z, ok := f.g.zeroOther(t, f.lean(t)); ok {
+			return z
 		}
 		f.fail("nil of type %s", f.g.typeKey(t))
 	}
@@ -238,19 +244,7 @@ func (f *g2lFn) selector(x *ast.SelectorExpr) string {
 	if sel.Kind() != types.FieldVal {
 		f.fail("method value `%s`", f.src(x))
 	}
-	if len(sel.Index()) != 1 {
-		f.fail("promoted field `%s`", f.src(x))
-	}
-	rt := f.typeOf(x.X)
-	n := f.namedOf(rt)
-	if n == nil {
-		f.fail("field of an unnamed type in `%s`", f.src(x))
-	}
-	base := g2lPar(f.expr(x.X))
-	if g2lKindOf(rt) == kPtr {
-		base = "(" + base + ".get!)"
-	}
-	return base + "." + f.fieldLean(n, x.Sel.Name)
+	return f.selectorX(x, sel)
 }
 
 func (f *g2lFn) args(as []ast.Expr) []string {
@@ -319,6 +313,9 @@ func (f *g2lFn) call(c *ast.CallExpr) string {
 	if fn == nil {
 		f.fail("call of a function value `%s`", f.src(c))
 	}
+	if s, ok := f.primCall(c, fn); ok {
+		return s
+	}
 	sig := fn.Type().(*types.Signature)
 	if sig.Variadic() {
 		f.fail("variadic function in `%s`", f.src(c))
@@ -334,29 +331,25 @@ func (f *g2lFn) call(c *ast.CallExpr) string {
 			f.fail("method expression `%s`", f.src(c))
 		}
 		sel := f.g.info.Selections[se]
-		if sel == nil || sel.Kind() != types.MethodVal || len(sel.Index()) != 1 {
-			f.fail("method call `%s` (interface, promoted or expression form)", f.src(c))
+		if sel == nil || sel.Kind() != types.MethodVal {
+			f.fail("method call `%s` (interface or expression form)", f.src(c))
 		}
 		if _, isIface := sig.Recv().Type().Underlying().(*types.Interface); isIface {
 			f.fail("interface method call `%s`", f.src(c))
 		}
-		recv := g2lPar(f.expr(se.X))
-		_, recvPtr := types.Unalias(sig.Recv().Type()).(*types.Pointer)
-		argPtr := g2lKindOf(f.typeOf(se.X)) == kPtr
-		switch {
-		case recvPtr:
-			f.fail("pointer receiver in `%s`", f.src(c))
-		case argPtr:
-			recv = "(" + recv + ".get!)"
-		}
-		args = append(args, recv)
+		_, isPrim := f.g.cfg.Prims[key]
+		args = append(args, f.recvArg(c, se, sel, fn, isPrim))
 	}
-	args = append(args, f.args(c.Args)...)
+	_, isPrim := f.g.cfg.Prims[key]
+	args = append(args, f.callArgs(fn, c.Args, isPrim)...)
 	if t, ok := f.g.cfg.Prims[key]; ok {
 		return g2lTemplate(t, args)
 	}
 	if !local {
 		f.fail("call of `%s` (not a primitive of this configuration)", key)
+	}
+	if len(f.g.inOutFor(key)) > 0 {
+		f.fail("call of `%s`, which has in-out parameters (only the outermost function may have them)", key)
 	}
 	f.dep(key)
 	return strings.Join(append([]string{f.g.unitLeanName(key)}, args...), " ")
@@ -370,6 +363,9 @@ func (f *g2lFn) builtin(c *ast.CallExpr) string {
 	switch id.Name {
 	case "len":
 		t := f.typeOf(c.Args[0])
+		if s, ok := f.lenOther(c.Args[0], t); ok {
+			return s
+		}
 		if g2lKindOf(t) != kList {
 			f.fail("len of %s (only slices and arrays; strings are byte sequences in Go)", f.g.typeKey(t))
 		}
@@ -384,8 +380,14 @@ func (f *g2lFn) builtin(c *ast.CallExpr) string {
 		if c.Ellipsis.IsValid() || len(c.Args) < 1 {
 			f.fail("`%s`", f.src(c))
 		}
-		a := f.args(c.Args)
+		a := f.args(c.Args[:1])
+		for _, e := range c.Args[1:] {
+			a = append(a, g2lPar(f.exprFor(e, f.typeOf(c.Args[0]), nil)))
+		}
 		return a[0] + " ++ [" + strings.Join(a[1:], ", ") + "]"
+	}
+	if s, ok := f.builtinOther(id.Name, c); ok {
+		return s
 	}
 	f.fail("builtin `%s`", id.Name)
 	return ""
@@ -445,12 +447,12 @@ func (f *g2lFn) composite(x *ast.CompositeLit) string {
 				if !ok {
 					f.fail("struct literal key in `%s`", f.src(x))
 				}
-				vals[k.Name] = f.expr(kv.Value)
+				vals[k.Name] = f.exprFor(kv.Value, nil, g2lFieldType(st, k.Name))
 			} else {
 				if i >= st.NumFields() {
 					f.fail("struct literal `%s`", f.src(x))
 				}
-				vals[st.Field(i).Name()] = f.expr(el)
+				vals[st.Field(i).Name()] = f.exprFor(el, nil, st.Field(i).Type())
 			}
 		}
 		s, err := f.g.structLit(n, vals)
@@ -464,7 +466,7 @@ func (f *g2lFn) composite(x *ast.CompositeLit) string {
 			if _, ok := el.(*ast.KeyValueExpr); ok {
 				f.fail("indexed element in `%s`", f.src(x))
 			}
-			parts = append(parts, f.expr(el))
+			parts = append(parts, f.exprFor(el, t, nil))
 		}
 		if a, ok := t.Underlying().(*types.Array); ok && int(a.Len()) != len(parts) {
 			f.fail("array literal `%s` shorter than its type", f.src(x))
@@ -477,6 +479,9 @@ func (f *g2lFn) composite(x *ast.CompositeLit) string {
 
 func (f *g2lFn) index(x *ast.IndexExpr) string {
 	t := f.typeOf(x.X)
+	if s, ok := f.indexOther(x, t); ok {
+		return s
+	}
 	if g2lKindOf(t) != kList {
 		f.fail("index into %s in `%s`", f.g.typeKey(t), f.src(x))
 	}
@@ -500,6 +505,8 @@ func (f *g2lFn) unary(x *ast.UnaryExpr) string {
 		return f.expr(x.X)
 	case token.NOT:
 		return f.boolExpr(x)
+	case token.AND:
+		return f.addrOf(x)
 	}
 	f.fail("operator %s in `%s`", x.Op, f.src(x))
 	return ""
@@ -609,6 +616,9 @@ func g2lRel(op token.Token) string {
 // relation builds the (decidable) proposition of a comparison.
 func (f *g2lFn) relation(x *ast.BinaryExpr) string {
 	lt, rt := f.typeOf(x.X), f.typeOf(x.Y)
+	if s, ok := f.relationOther(x, lt, rt); ok {
+		return s
+	}
 	// comparison with nil
 	if g2lKindOf(lt) == kPtr || g2lKindOf(rt) == kPtr {
 		isNil := func(e ast.Expr) bool {
@@ -627,6 +637,9 @@ func (f *g2lFn) relation(x *ast.BinaryExpr) string {
 			other = x.Y
 		default:
 			f.fail("pointer comparison `%s` (identity is not modelled)", f.src(x))
+		}
+		if s, ok := f.nilTest(other, x.Op); ok {
+			return s
 		}
 		if x.Op == token.EQL {
 			return g2lPar(f.expr(other)) + ".isNone = true"
